@@ -164,18 +164,24 @@ CHECKS['C12'] = dict(
    technique='Coq proof (congruence of every decoder under agreement on the datagram prefix, lifted to the server and client steps), differential correspondence over varied residues',
    design='4/C12')
 CHECKS['C06'] = dict(
-   text='PARTIAL (the decoders and the tunnel state machine are proved safe for all inputs; the handshake functions have no model and are covered by sanitizer runs only). '
+   text='PARTIAL (the decoders and the tunnel state machine are proved safe for all inputs; the handshake has a sequencing model with two theorems; its raw-UDP half '
+        'and compiler-level undefined behaviour are covered by sanitizer runs only). '
         'Coq theorems for all inputs about the client-side decoders and the client tunnel model: every write stays within its destination (decoded answers, '
         'readname, readtxtbin, the 250x256 MX name array and its output loop, dns_namedec including its trailing NUL), fuel adequacy / termination of every '
         'loop with explicit work bounds, the reassembly buffer and counters stay in range over arbitrary event histories (given zlib output fits its buffer), and '
-        'a reply that matches none of the recent queries leaves the tunnel state unchanged and writes nothing to tun. Tied to the C by decoder, tunnel-history '
-        'and scripted-handshake runs, all under ASan/UBSan; the handshake functions have no model and are covered by the sanitizer runs only.',
-   note='Trusts: ASan/UBSan as the memory-safety observer for code without a model (handshake functions, tun_setip, libc, zlib); per-datagram work bound is '
-        'prose over formal pieces; Coq kernel; translator; extraction; gcc/clang runtime.',
-   technique='Coq proof (bounds invariants of the decoder models, fuel adequacy, state invariant by induction over events), differential correspondence, sanitizer runs',
+        'a reply that matches none of the recent queries leaves the tunnel state unchanged and writes nothing to tun. The handshake (handshake_waitdns and every '
+        'step built on it, handshake_login, client_handshake without the raw-UDP attempt) has a sequencing model over scripts of replies and time-outs: every step, '
+        'and the whole handshake, sends a bounded number of queries for every script (5/3/21/12/27/48, 141 in all) and consumes the script from the front, and '
+        'datagrams whose DNS id reads as 0 change nothing wherever they arrive. Tied to the C by decoder, tunnel-history and scripted-handshake runs (model and real '
+        'functions must end in the same state with the same return value, system() commands, queries sent and script left), all under ASan/UBSan; '
+        'handshake_raw_udp has no model.',
+   note='Trusts: ASan/UBSan as the memory-safety observer for code without a model (handshake_raw_udp, the buffer handling inside the handshake functions, '
+        'tun_setip, libc, zlib); per-datagram work bound is prose over formal pieces; Coq kernel; translator; extraction; gcc/clang runtime.',
+   technique='Coq proof (bounds invariants of the decoder models, fuel adequacy, state invariant by induction over events; handshake sequencing in a state-and-script '
+             'monad with bound and ignore predicates closed under bind / retry), differential correspondence, sanitizer runs',
    design='4/C05-C06')
 CHECKS['C11'] = dict(
-   text='PARTIAL (decision logic, pattern coverage, codec survival, binary search and fallback proved; retry/time-out sequencing validated by runs only; random-case '
+   text='PARTIAL (decision logic, pattern coverage, codec survival, binary search and fallback proved; each test tied to the retry/time-out sequencing model by C11_test_sequencing, whole-handshake scripts against the relay family by runs only; random-case '
         'member under an explicit hypothesis; three known findings). Coq theorems over the relay family (case keep/lower/upper/random x 8-bit clean/strip/reject x punctuation keep/mangle +/mangle _, on either side, size '
         'limits, EDNS0, record-type sets): the test patterns cover every alphabet character a deterministic relay can alter (by reflection over the 27 members), '
         'so the upstream codec selected survives the query side for every payload (via the C07 round trip); the downstream codec selected delivers every payload '
@@ -183,8 +189,8 @@ CHECKS['C11'] = dict(
         'whose answers pass the limit (given C09 size monotonicity); every autodetect falls back to Base32/least type rather than failing. Decision logic, pattern '
         'strings, orders and probe constants are re-read from the source; the model predicts (rv, type, codecs, EDNS0, fragsize) of the REAL client_handshake run '
         'through a relay harness, and an oracle sends packets over the negotiated settings.',
-   note='Trusts: the relay semantics of harness/h_handshake.c as the reading of the family; retry/time-out sequencing, lazy and raw sub-handshakes validated by '
-        'runs only; random-case downstream half assumes the alteration was visible in the replies; three known findings (all forced options or the protocol constant); '
+   note='Trusts: the relay semantics of harness/h_handshake.c as the reading of the family; the composition of whole-handshake scripts with the relay family and the raw sub-handshake validated by '
+        'runs only (single tests: C11_test_sequencing over coq/Handshake.v); random-case downstream half assumes the alteration was visible in the replies; three known findings (all forced options or the protocol constant); '
         'Coq kernel; translator; extraction; gcc.',
    technique='Coq proof (reflection over the finite relay family for coverage, lifted to all payloads by the codec round trip; binary-search invariant), differential correspondence against the real handshake through a relay, delivery oracle',
    design='4/C11')
